@@ -216,7 +216,7 @@ class FortranEngine:
             max_iter,
             tol,
             offset,
-            [self.names.index(x) for x in self.check],
+            [self.names.index(x) + 1 for x in self.check],  # One-based (Fortran) indexing
             self._FAILURE_OPTIONS[failures],
             self._ERROR_OPTIONS[errors],
         )
@@ -424,7 +424,7 @@ class FortranEngine:
             max_iter,
             tol,
             offset,
-            [self.names.index(x) for x in self.check],
+            [self.names.index(x) + 1 for x in self.check],  # One-based (Fortran) indexing
             self._ERROR_OPTIONS[errors],
         )
 
